@@ -39,6 +39,7 @@ import (
 	"github.com/BondMachineHQ/BondMachine/pkg/basm"
 	"github.com/BondMachineHQ/BondMachine/pkg/bmconfig"
 	"github.com/BondMachineHQ/BondMachine/pkg/bminfo"
+	"github.com/BondMachineHQ/BondMachine/pkg/bmline"
 	"github.com/BondMachineHQ/BondMachine/pkg/bmnumbers"
 	"github.com/BondMachineHQ/BondMachine/pkg/bmreqs"
 	"github.com/BondMachineHQ/BondMachine/pkg/bondmachine"
@@ -61,6 +62,7 @@ type procSpec struct {
 	Threaded int      `json:"thr,omitempty"`
 	Ops      []string `json:"ops"`
 	Prog     []string `json:"prog,omitempty"` // procbuilder assembly lines for the ROM
+	Req      []string `json:"req,omitempty"`  // assembly lines whose destination / source registers are recorded in the requirement sets (through the opcodes' own HLAssemblerNormalize, as basm does): what the hw optimisations consult
 }
 
 type spec struct {
@@ -188,6 +190,39 @@ func buildBM(s *spec) (*bondmachine.Bondmachine, *bondmachine.Config, error) {
 	}
 	for _, b := range s.Bonds {
 		bm.Add_bond([]string{b[0], b[1]})
+	}
+	// requirement sets of the processors, recorded the way basm records them
+	for pi, di := range bm.Processors {
+		if di >= len(s.Procs) || len(s.Procs[di].Req) == 0 {
+			continue
+		}
+		rg := conf.ReqRoot
+		node := "/bm:cps/id:" + strconv.Itoa(pi)
+		rg.Requirement(bmreqs.ReqRequest{Node: "/", T: bmreqs.ObjectSet, Name: "bm", Value: "cps", Op: bmreqs.OpAdd})
+		rg.Requirement(bmreqs.ReqRequest{Node: "/bm:cps", T: bmreqs.ObjectSet, Name: "id", Value: strconv.Itoa(pi), Op: bmreqs.OpAdd})
+		arch := &bm.Domains[di].Arch
+		for _, l := range s.Procs[di].Req {
+			f := strings.Fields(l)
+			if len(f) == 0 {
+				continue
+			}
+			bl := new(bmline.BasmLine)
+			bl.Operation = new(bmline.BasmElement)
+			bl.Operation.SetValue(f[0])
+			for _, a := range f[1:] {
+				e := new(bmline.BasmElement)
+				e.SetValue(a)
+				bl.Elements = append(bl.Elements, e)
+			}
+			for _, op := range arch.Op {
+				if op.Op_get_name() == f[0] {
+					func() {
+						defer func() { recover() }()
+						op.HLAssemblerNormalize(arch, rg, node, bl)
+					}()
+				}
+			}
+		}
 	}
 	if s.OpOrder != "" {
 		bmj := bm.Jsoner()
